@@ -5,7 +5,7 @@ from .common import *
 from . import kengine
 from .kengine import H
 
-K_PROPS = ["c04", "c07", "c09", "c10", "c11", "c18"]          # modules under vlib/props driven by engine K (extended as properties are built)
+K_PROPS = ["c04", "c07", "c09", "c10", "c11", "c17", "c18"]          # modules under vlib/props driven by engine K (extended as properties are built)
 
 
 def load_props():
@@ -76,6 +76,12 @@ def run_k_property(mod, tier, only=None, write=True):
                     machinery.append(r)
             elif repro:
                 violations.append((r, repro[0]))
+            elif r.memdiag:
+                # Kani's allocator model reported frees of invalid/dead objects in this (safe-Rust) run: the model state is an
+                # artefact from there on (DESIGN §9), so a functional failure that does NOT reproduce natively is not believed either way.
+                r.status, r.reason = "undischarged", "failed only inside Kani's model after allocator-model artefacts (%s); not reproducible natively" % (
+                    "; ".join(sorted(set(f[2] for f in r.failed)))[:160])
+                undischarged.append(r)
             else:
                 machinery.append(r)
         elif r.status in ("undischarged", "vacuous", "error"):
